@@ -270,6 +270,7 @@ class Link(object):
         if k < len(data):
             self.short_writes += 1
         if k:
+            self.device.cur_actor = actor
             self.device.on_host_bytes(bytes(data[:k]), self.clock.now)
             self.bytes_written += k
             if self.kick is not None:
